@@ -179,11 +179,78 @@ fn security_headers_x(h: &HeaderMap) -> X {
     headers_x(&m)
 }
 
-fn extensions_for(csp: RuleSet<ComputedRule>, server: &str) -> Extensions {
-    let mut ext = Extensions::new();
-    ext.with_csp(csp.arc());
-    ext.with_server_header(server, false, true);
+/// Which `Extensions` the host gets.
+///   base 0: `Extensions::new()` as it is (its own `server` header and default CSP; `adds`/`server` unused);
+///   base 1: `Extensions::new()` + `with_csp(adds)` + `with_server_header(server, platform, override)`;
+///   base 2: `Extensions::empty()` + the extensions selected by `flags`
+///           (1 with_csp, 2 with_no_referrer, 4 with_server_header, 8 with_uri_redirect, 16 with_nonce).
+/// `mount`: `kvarn_extensions::mount_all` on top (Present extensions `cache`, `allow-ips`, `hide`, `download`, ...).
+#[derive(Clone, Copy)]
+struct ExtCfg {
+    base: u128,
+    flags: u128,
+    platform: bool,
+    override_server: bool,
+    mount: bool,
+}
+impl ExtCfg {
+    const CLASSIC: ExtCfg = ExtCfg { base: 1, flags: 0, platform: false, override_server: true, mount: false };
+    /// (L (N base) (N flags) (N platform) (N override) (N mount))
+    fn parse(x: Option<&X>) -> Option<ExtCfg> {
+        let x = match x {
+            None => return Some(Self::CLASSIC),
+            Some(x) => x,
+        };
+        match x.as_l()? {
+            [b, f, p, o, m] => Some(ExtCfg {
+                base: b.as_n()?,
+                flags: f.as_n()?,
+                platform: p.as_n()? == 1,
+                override_server: o.as_n()? == 1,
+                mount: m.as_n()? == 1,
+            }),
+            _ => None,
+        }
+    }
+}
+
+fn extensions_cfg(csp: RuleSet<ComputedRule>, server: &str, c: ExtCfg) -> Extensions {
+    let mut ext = match c.base {
+        0 => Extensions::new(),
+        1 => {
+            let mut ext = Extensions::new();
+            ext.with_csp(csp.arc());
+            ext.with_server_header(server, c.platform, c.override_server);
+            ext
+        }
+        _ => {
+            let mut ext = Extensions::empty();
+            if c.flags & 8 != 0 {
+                ext.with_uri_redirect();
+            }
+            if c.flags & 2 != 0 {
+                ext.with_no_referrer();
+            }
+            if c.flags & 1 != 0 {
+                ext.with_csp(csp.arc());
+            }
+            if c.flags & 4 != 0 {
+                ext.with_server_header(server, c.platform, c.override_server);
+            }
+            if c.flags & 16 != 0 {
+                ext.with_nonce();
+            }
+            ext
+        }
+    };
+    if c.mount {
+        kvarn_extensions::mount_all(&mut ext);
+    }
     ext
+}
+
+fn extensions_for(csp: RuleSet<ComputedRule>, server: &str) -> Extensions {
+    extensions_cfg(csp, server, ExtCfg::CLASSIC)
 }
 
 fn empty_request(path: &str) -> Option<FatRequest> {
@@ -213,8 +280,12 @@ fn package_ids(host: &Host) -> X {
 /// input: (L adds (B path) (L (L (B name) (B value)) ...) (B server)); output: Ok (L priorities headers)
 fn csp_package(x: &X) -> X {
     let l = match x.as_l() {
-        Some(l) if l.len() == 4 => l,
+        Some(l) if l.len() == 4 || l.len() == 5 => l,
         _ => return X::bad(),
+    };
+    let cfg = match ExtCfg::parse(l.get(4)) {
+        Some(c) => c,
+        None => return X::bad(),
     };
     let (path, hs, server) = match (l[1].as_b(), l[2].as_l(), l[3].as_b()) {
         (Some(p), Some(h), Some(s)) => (p, h, s),
@@ -254,7 +325,7 @@ fn csp_package(x: &X) -> X {
         };
         let mut opts = host::Options::default();
         opts.disable_fs();
-        let host = Host::unsecure("localhost", "/nonexistent", extensions_for(csp, server), opts);
+        let host = Host::unsecure("localhost", "/nonexistent", extensions_cfg(csp, server, cfg), opts);
         let rt = runtime();
         rt.block_on(run_package_chain(&host, &mut response, &request));
         X::ok(X::L(vec![package_ids(&host), headers_x(response.headers())]))
@@ -270,8 +341,7 @@ struct Page {
     pref: u128,
 }
 
-fn page_host(csp: RuleSet<ComputedRule>, server: &str, page_path: &str, page: Page) -> Host {
-    let mut ext = extensions_for(csp, server);
+fn add_page(ext: &mut Extensions, page_path: &str, page: Page) {
     let Page { body, count, pref } = page;
     ext.add_prepare_single(
         page_path,
@@ -281,10 +351,23 @@ fn page_host(csp: RuleSet<ComputedRule>, server: &str, page_path: &str, page: Pa
             match *pref {
                 0 => FatResponse::no_cache(r),
                 1 => FatResponse::cache(r),
-                _ => FatResponse::new(r, comprash::ServerCachePreference::QueryMatters),
+                2 => FatResponse::new(r, comprash::ServerCachePreference::QueryMatters),
+                _ => FatResponse::new(r, comprash::ServerCachePreference::MaxAge(Duration::from_secs(3600))),
             }
         }),
     );
+}
+
+/// The CSP rule set of `Extensions::new()` (for the configurations that set one themselves).
+fn csp_default_set() -> RuleSet<ComputedRule> {
+    let mut rs: RuleSet<ComputedRule> = RuleSet::empty();
+    rs.add_mut("/*", CspRule::default());
+    rs
+}
+
+fn page_host(csp: RuleSet<ComputedRule>, server: &str, page_path: &str, page: Page) -> Host {
+    let mut ext = extensions_for(csp, server);
+    add_page(&mut ext, page_path, page);
     let mut opts = host::Options::default();
     opts.disable_fs();
     let mut host = Host::unsecure("localhost", "/nonexistent", ext, opts);
@@ -352,6 +435,101 @@ fn nonce_page(x: &X) -> X {
                 X::bool(n1.is_some() && n1 != n2),
                 security_headers_x(head.headers()),
             ]))
+        })
+    })
+}
+
+// -------------------------------------------------------------------------------------------
+// a page with a line of Present directives (`!> nonce &> cache server:full`) through handle_cache
+// -------------------------------------------------------------------------------------------
+/// directives: (L (L (B name) (L (B arg) ...)) ...) -> `!> name arg &> name arg\n`; empty list -> no line
+fn line_text(x: &X) -> Option<Vec<u8>> {
+    let ds = x.as_l()?;
+    let mut out = Vec::new();
+    for (i, d) in ds.iter().enumerate() {
+        let d = d.as_l()?;
+        if d.len() != 2 {
+            return None;
+        }
+        out.extend_from_slice(if i == 0 { b"!> " } else { b" &> " });
+        out.extend_from_slice(d[0].as_b()?);
+        for a in d[1].as_l()? {
+            out.push(b' ');
+            out.extend_from_slice(a.as_b()?);
+        }
+    }
+    if !ds.is_empty() {
+        out.push(b'\n');
+    }
+    Some(out)
+}
+
+/// `(N 0)` no line, `(N 1)` = `!> nonce`, or a list of directives
+fn line_of(x: &X) -> Option<Vec<u8>> {
+    match x {
+        X::N(0) => Some(Vec::new()),
+        X::N(1) => Some(b"!> nonce\n".to_vec()),
+        X::L(_) => line_text(x),
+        _ => None,
+    }
+}
+
+/// input: (L (B body) directives (N pref) (N requests) cfg (B server))   [server: for the model only when cfg.base = 0]
+/// output: Ok (L (L reply ...) (N handler_calls) headers_after_package_chain_of_reply_1)
+///         reply = (L status (L csp-nonce values) body-of-a-200)
+fn nonce_line(x: &X) -> X {
+    let l = match x.as_l() {
+        Some(l) if l.len() == 6 => l,
+        _ => return X::bad(),
+    };
+    let (body, pref, nreq, server) = match (l[0].as_b(), l[2].as_n(), l[3].as_n(), l[5].as_b()) {
+        (Some(b), Some(p), Some(n), Some(s)) => (b, p, n, s),
+        _ => return X::bad(),
+    };
+    let cfg = match ExtCfg::parse(Some(&l[4])) {
+        Some(c) => c,
+        None => return X::bad(),
+    };
+    let server = match utf8(server) {
+        Some(s) if HeaderValue::from_str(s).is_ok() => s.to_owned(),
+        _ => return ood(),
+    };
+    let mut data = match line_text(&l[1]) {
+        Some(d) => d,
+        None => return X::bad(),
+    };
+    data.extend_from_slice(body);
+    if nreq == 0 || nreq > 4096 {
+        return ood();
+    }
+    let count = std::sync::Arc::new(AtomicUsize::new(0));
+    crate::guarded(|| {
+        let mut ext = extensions_cfg(csp_default_set(), &server, cfg);
+        let page = Page { body: Bytes::from(data), count: count.clone(), pref };
+        add_page(&mut ext, "/p", page);
+        let mut opts = host::Options::default();
+        opts.disable_fs();
+        let mut host = Host::unsecure("localhost", "/nonexistent", ext, opts);
+        host.limiter.disable();
+        let addr: SocketAddr = "127.0.0.1:1".parse().unwrap();
+        let rt = runtime();
+        rt.block_on(async {
+            let mut replies = Vec::new();
+            let mut first = None;
+            for _ in 0..nreq {
+                let mut req = empty_request("/p").unwrap();
+                let r = kvarn::handle_cache(&mut req, addr, &host).await;
+                let nonces: Vec<X> = r.response.headers().get_all("csp-nonce").iter().map(|v| X::b(v.as_bytes())).collect();
+                let status = r.response.status().as_u16();
+                let body = if status == 200 { r.response.body().to_vec() } else { Vec::new() };
+                replies.push(X::L(vec![X::n(status), X::L(nonces), X::B(body)]));
+                if first.is_none() {
+                    let (mut head, _) = kvarn_utils::split_response(r.response);
+                    run_package_chain(&host, &mut head, &req).await;
+                    first = Some(security_headers_x(head.headers()));
+                }
+            }
+            X::ok(X::L(vec![X::L(replies), X::n(count.load(Ordering::SeqCst)), first.unwrap()]))
         })
     })
 }
@@ -656,6 +834,7 @@ pub fn dispatch(comp: &str, x: &X) -> Option<X> {
         "ruleset.get" => ruleset_get(x),
         "csp.package" => csp_package(x),
         "nonce.page" => nonce_page(x),
+        "nonce.line" => nonce_line(x),
         "c14.conn" => conn(x),
         _ => return None,
     })
